@@ -40,3 +40,6 @@ pub mod wallet;
 
 #[cfg(any(test, feature = "test-dependencies"))]
 pub mod testing;
+
+#[cfg(zcash_librustzcash_verif)]
+pub mod verif_hooks;
